@@ -778,12 +778,14 @@ public:
 		else if (pos > len) {
 			len = pos;
 		}
+		/* value may be an element of this array: elements move on reserve and insert */
+		const T tmp(val);
 		if (!this->reserve(len + 1)) {
 			return 0;
 		}
 		void *d = this->_ref.instance()->insert(pos);
 		if (d) {
-			new (d) T(val);
+			new (d) T(tmp);
 			return true;
 		}
 		return false;
